@@ -27,6 +27,9 @@ class ModuleInfo:
             self.tree = ast.parse(src, filename=path)
         except SyntaxError as err:
             raise AnalysisError(f"syntax error in {relpath}: {err}")
+        # behaviour-preserving respellings are brought to the canonical form the rules are written against
+        from .canon import canonicalise
+        canonicalise(self.tree, relpath)
         self.digest = hashlib.sha256(src.encode()).hexdigest()[:16]
         self.imports: Dict[str, str] = {}
         self.defs: Dict[str, ast.AST] = {}
